@@ -130,7 +130,7 @@ def candidate_graph_cases(rng, acc, n):
 def floors(tier):
     return {"sessions": 200, "cmp-skip-bulk": 300, "cmp-skip-incremental": 300,
             "cmp-consecutive-bulk": 300, "cmp-consecutive-incremental": 300,
-            "differential-skip": 300, "candidate-graphs-with-merges": 40}
+            "differential-skip": 300, "candidate-graphs-with-merges": 25}
 
 
 def replay(doc):
